@@ -43,6 +43,7 @@ type Op struct {
 	Client int    `json:"client,omitempty"` // connect, hb
 	Node   int    `json:"node,omitempty"`   // connect
 	Mode   string `json:"mode,omitempty"`   // connect: good | bad-secret | tunnel-type | no-handshake
+	Fault  string `json:"fault,omitempty"`  // connect(good) / hb: the shared tier of the handling node refuses the write of "conn_state", "client_conn" (once) or "both" (for the whole event); tiered backend only
 	Conn   int    `json:"conn,omitempty"`   // close / hbold: ordinal of the connect op whose connection is closed (by its owning node) / heartbeats late
 	HB     []int  `json:"hb,omitempty"`     // tick: clients that send a heartbeat on their newest connection after the pause; sweep: clients kept active
 	FF     bool   `json:"ff,omitempty"`     // tick: the Redis server's clock advances too (false: store-side expiry lags)
@@ -130,10 +131,11 @@ func genCase(t *rapid.T) Case {
 			conns = append(conns, gconn{client: op.Client, node: op.Node, open: true, good: op.Mode == "good"})
 			if op.Mode == "good" {
 				newest[op.Client] = len(conns) - 1
+				op.Fault = genFault(t)
 			}
 			c.Ops = append(c.Ops, op)
 		case "hb":
-			c.Ops = append(c.Ops, Op{Kind: "hb", Client: hbable[rapid.IntRange(0, len(hbable)-1).Draw(t, "hbClient")]})
+			c.Ops = append(c.Ops, Op{Kind: "hb", Client: hbable[rapid.IntRange(0, len(hbable)-1).Draw(t, "hbClient")], Fault: genFault(t)})
 		case "hbold":
 			// a late heartbeat on a superseded connection that its node still believes in
 			c.Ops = append(c.Ops, Op{Kind: "hbold", Conn: superseded[rapid.IntRange(0, len(superseded)-1).Draw(t, "oldConn")]})
@@ -191,12 +193,64 @@ func genCase(t *rapid.T) Case {
 	return c
 }
 
+func genFault(t *rapid.T) string {
+	return rapid.SampledFrom([]string{"", "", "", "", "", "", "", "", "", "both", "both", "conn_state", "client_conn"}).Draw(t, "fault")
+}
+
 // ---------------------------------------------------------------------------
 // backends
 
 type noCloseRedis struct{ *redisstore.Storage }
 
 func (noCloseRedis) Close() error { return nil }
+
+// faultyShared is the shared tier of one node of the tiered backend: the real Redis storage whose Set can be
+// made to fail for connection-state keys (a Redis outage that hits exactly one node's write).
+type faultyShared struct {
+	*redisstore.Storage
+	arm *faultArm
+}
+
+type faultArm struct {
+	mu   sync.Mutex
+	mode string // "", conn_state, client_conn (one shot), both (until disarmed)
+	hits int
+}
+
+func (a *faultArm) set(mode string) { a.mu.Lock(); a.mode = mode; a.mu.Unlock() }
+
+func (a *faultArm) take() int {
+	a.mu.Lock()
+	defer a.mu.Unlock()
+	n := a.hits
+	a.hits = 0
+	a.mode = ""
+	return n
+}
+
+func (a *faultArm) fails(key string) bool {
+	a.mu.Lock()
+	defer a.mu.Unlock()
+	isState, isIndex := strings.HasPrefix(key, "tunnox:conn_state:"), strings.HasPrefix(key, "tunnox:client_conn:")
+	switch {
+	case a.mode == "both" && (isState || isIndex):
+	case a.mode == "conn_state" && isState, a.mode == "client_conn" && isIndex:
+		a.mode = ""
+	default:
+		return false
+	}
+	a.hits++
+	return true
+}
+
+func (f faultyShared) Close() error { return nil }
+
+func (f faultyShared) Set(key string, value any, ttl time.Duration) error {
+	if f.arm.fails(key) {
+		return fmt.Errorf("injected: shared cache unavailable")
+	}
+	return f.Storage.Set(key, value, ttl)
+}
 
 type redisEnv struct {
 	mr      *miniredis.Miniredis
@@ -261,6 +315,8 @@ type bclient struct {
 }
 
 type backend struct {
+	arms    []*faultArm // per node; tiered backend only
+	faulted bool
 	name    string
 	nodes   []*miniserver.Server
 	mr      *miniredis.Miniredis
@@ -286,6 +342,10 @@ func buildBackends(c Case) []*backend {
 	pers := vkit.NewGatePersistent(nil, "persistent")
 	redisA.mr.FlushAll()
 	redisB.mr.FlushAll()
+	arms := make([]*faultArm, maxNodes)
+	for i := range arms {
+		arms[i] = &faultArm{}
+	}
 	stores := map[string]func(i int) storage.Storage{
 		"memory":        func(int) storage.Storage { return mem },
 		"hybrid-memory": func(int) storage.Storage { return hm },
@@ -293,7 +353,7 @@ func buildBackends(c Case) []*backend {
 		"hybrid-redis": func(i int) storage.Storage {
 			cfg := hybrid.DefaultConfig()
 			cfg.EnablePersistent = true
-			return hybrid.NewWithSharedCache(ctx, memory.New(ctx), noCloseRedis{redisB.clients[i]}, pers, cfg)
+			return hybrid.NewWithSharedCache(ctx, memory.New(ctx), faultyShared{redisB.clients[i], arms[i]}, pers, cfg)
 		},
 	}
 	var out []*backend
@@ -304,6 +364,7 @@ func buildBackends(c Case) []*backend {
 			b.mr = redisA.mr
 		case "hybrid-redis":
 			b.mr = redisB.mr
+			b.arms = arms
 		}
 		for i := 0; i < c.Nodes; i++ {
 			st := stores[name](i)
@@ -365,11 +426,31 @@ func nextAddr() string {
 	return fmt.Sprintf("10.%d.%d.%d:%d", (addrSeq>>16)&255, (addrSeq>>8)&255, addrSeq&255, 20000+addrSeq%30000)
 }
 
+// armFault makes the shared tier of node refuse connection-state writes during the coming event; the returned
+// function ends the outage and marks the client as degraded when a write was actually refused.
+func (b *backend) armFault(node int, mode string, client int) func() {
+	if mode == "" || b.arms == nil {
+		return func() {}
+	}
+	b.arms[node].set(mode)
+	return func() {
+		if b.arms[node].take() > 0 {
+			b.faulted = true
+			if x := b.clients[client]; x != nil {
+				// a registration or keep-alive that lost a write: nothing is promised for the client until its next
+				// handshake, except that answers name open connections and that nothing outlives the last close
+				x.contested = true
+			}
+		}
+	}
+}
+
 func (b *backend) connect(op Op, seq int) *failure {
 	cl, err := b.nodes[op.Node].Connect(nextAddr())
 	if err != nil {
 		panic("C08 harness: Connect: " + err.Error())
 	}
+	defer b.armFault(op.Node, op.Fault, op.Client)()
 	bc := &bconn{cl: cl, client: op.Client, node: op.Node, open: true, seq: seq, mode: op.Mode}
 	b.conns = append(b.conns, bc)
 	x := b.clients[op.Client]
@@ -417,11 +498,14 @@ func (b *backend) connect(op Op, seq int) *failure {
 	return nil
 }
 
-func (b *backend) heartbeat(client int) {
+func (b *backend) heartbeat(client int) { b.heartbeatFault(client, "") }
+
+func (b *backend) heartbeatFault(client int, fault string) {
 	x := b.clients[client]
 	if x == nil || x.latest == nil || !x.latest.open {
 		return
 	}
+	defer b.armFault(x.latest.node, fault, client)()
 	tb := time.Now()
 	err := x.latest.cl.Push(&packet.TransferPacket{PacketType: packet.Heartbeat})
 	ta := time.Now()
@@ -665,7 +749,7 @@ func runCase(c Case) *result {
 		case "hb":
 			for _, b := range bs {
 				if !b.dead {
-					b.heartbeat(op.Client)
+					b.heartbeatFault(op.Client, op.Fault)
 				}
 			}
 		case "hbold":
@@ -747,6 +831,9 @@ func check(t vkit.TB, c Case) {
 		if b.lateOldHB {
 			vkit.Class("feat:late-heartbeat-on-superseded-conn/" + b.name)
 		}
+		if b.faulted {
+			vkit.Class("feat:shared-tier-write-refused/" + b.name)
+		}
 		if b.sweptAny {
 			vkit.Class("feat:stale-sweep-closed-conn/" + b.name)
 		}
@@ -809,6 +896,9 @@ func TestScenarios(t *testing.T) {
 			{Kind: "hbold", Conn: 0}, {Kind: "tick", HB: []int{0}, FF: true}, {Kind: "close", Conn: 0}, {Kind: "close", Conn: 1}}},
 		// the client's only connection dies silently and is closed by the heartbeat-timeout sweep
 		{Nodes: 2, TTLms: 30000, Ops: []Op{{Kind: "connect", Client: 0, Node: 0, Mode: "good"}, {Kind: "connect", Client: 1, Node: 0, Mode: "good"}, {Kind: "sweep", Node: 0, HB: []int{1}}, {Kind: "sweep", Node: 1}, {Kind: "sweep", Node: 0}}},
+		// the shared tier refuses node 1's registration writes; the next heartbeat repairs them; after the close nothing may remain
+		{Nodes: 2, TTLms: 30000, Ops: []Op{{Kind: "connect", Client: 0, Node: 0, Mode: "good", Fault: "both"}, {Kind: "hb", Client: 0}, {Kind: "close", Conn: 0},
+			{Kind: "connect", Client: 0, Node: 1, Mode: "good"}, {Kind: "hb", Client: 0, Fault: "client_conn"}, {Kind: "hb", Client: 0, Fault: "conn_state"}, {Kind: "close", Conn: 1}}},
 		// default lifetime (ttl argument 0)
 		{Nodes: 2, TTLms: 0, Ops: []Op{{Kind: "connect", Client: 1, Node: 1, Mode: "good"}, {Kind: "connect", Client: 1, Node: 1, Mode: "bad-secret"}, {Kind: "connect", Client: 1, Node: 0, Mode: "tunnel-type"}, {Kind: "close", Conn: 0}}},
 	} {
